@@ -3,6 +3,7 @@ package verifsim
 import (
 	"encoding/base64"
 	"fmt"
+	"regexp"
 	"sort"
 	"strings"
 	"testing"
@@ -361,8 +362,10 @@ func oracleC03(res *RunResult) []Violation {
 	return out
 }
 
+var reParen = regexp.MustCompile(`\([^)]*\)`)
+
 func firstWords(s string, n int) string {
-	f := strings.Fields(s)
+	f := strings.Fields(reParen.ReplaceAllString(s, ""))
 	if len(f) > n {
 		f = f[:n]
 	}
